@@ -209,8 +209,38 @@ func genC11(g *Gen) {
 		g.Exhaust = append(g.Exhaust, "bmtree.PathOf, PathStr(PathOf): strings of length 0..1 on the same domain (length 2: widths 0,1,3,6,..,30,31,32)")
 	}
 
+	// (1b) five-byte windows, exhaustive over the alphabet: all strings of length 5 x unaligned starts x the widths
+	//      whose span reaches the fifth byte (quick: w = 32 and from in 1..7; thorough: from in 0..8, w in 24..32),
+	//      thorough also all strings of length 4 x all from x all widths (FromStr32 only)
+	c11Strings(5, func(s []byte) {
+		if g.Thorough {
+			for from := 0; from <= 8; from++ {
+				for w := 24; w <= 32; w++ {
+					c11All(g, s, from, w, "exh5-span", w == 32)
+				}
+			}
+		} else {
+			for from := 1; from <= 7; from++ {
+				c11All(g, s, from, 32, "exh5-span", false)
+			}
+		}
+	})
+	if g.Thorough {
+		g.Exhaust = append(g.Exhaust, "bitmap.FromStr32: all strings of length 5 over the alphabet x from in [0,8] x widths 24..32 (PathOf: width 32)")
+		c11Strings(4, func(s []byte) {
+			for from := 0; from <= 41; from++ {
+				for w := 0; w <= 32; w++ {
+					c11All(g, s, from, w, "exh-len4", false)
+				}
+			}
+		})
+		g.Exhaust = append(g.Exhaust, "bitmap.FromStr32: all strings of length 4 over the alphabet x from in [0,41] x all widths 0..32")
+	} else {
+		g.Exhaust = append(g.Exhaust, "bitmap.FromStr32: all strings of length 5 over the alphabet x from in [1,7] x width 32 (five-byte windows)")
+	}
+
 	// (2) sampled: strings of length 4..6 (quick also 3) over the same alphabet, all from in [0,56], all widths
-	ns := g.N(40, 1500)
+	ns := g.N(150, 1500)
 	for k := 0; k < ns; k++ {
 		n := g.R.Range(maxLen+1, 6)
 		s := g.R.Bytes(n, c11Alpha)
@@ -228,7 +258,7 @@ func genC11(g *Gen) {
 
 	// (3) random strings of every length 0..40 over the shared alphabets; starts before / at / after the end,
 	//     aligned and unaligned; widths biased to byte-span boundaries
-	nr := g.N(1500, 60000)
+	nr := g.N(6000, 60000)
 	for k := 0; k < nr; k++ {
 		n := g.R.Range(0, 12)
 		if g.R.Intn(5) == 0 {
@@ -280,7 +310,7 @@ func genC11(g *Gen) {
 
 	// (5) PathsOf: sorted key sets with shared prefixes (adjacent duplicates after truncation), unsorted
 	//     sets with non-adjacent duplicates, first path 0 and first path all-ones, both dedup flags
-	np := g.N(400, 12000)
+	np := g.N(1500, 12000)
 	for k := 0; k < np; k++ {
 		nk := g.R.Range(0, 8)
 		al := alphabets[g.R.Intn(len(alphabets))]
